@@ -1,70 +1,20 @@
 pub mod attack;
 pub mod byz;
+pub mod gen;
+pub mod harness;
 pub mod kernel;
 pub mod net;
 pub mod obs;
+pub mod oracle;
 pub mod plan;
 pub mod providers;
 pub mod run;
 pub mod simtls;
 pub mod wire;
 
-use plan::*;
-
-fn basic_plan(seed: u64) -> Plan {
-    let send = SendScript {
-        total: 100_000,
-        chunks: vec![1000, 7, 4096],
-        mode: SendMode::Send,
-        end: SendEnd::Finish,
-        pauses: vec![],
-        flush_every: 0,
-    };
-    let recv = RecvScript { mode: RecvMode::Receive, stop_at: None, pauses: vec![], start_delay_us: 0 };
-    Plan {
-        seed,
-        property: "C01".into(),
-        family: "basic".into(),
-        cfg: Config::default(),
-        conns: vec![ConnScript {
-            start_us: 0,
-            streams: vec![StreamPlan {
-                opener: Role::Client,
-                bidi: true,
-                open_delay_us: 0,
-                fwd: send.clone(),
-                fwd_recv: recv.clone(),
-                rev: Some(send),
-                rev_recv: Some(recv),
-            }],
-            close: CloseSpec::AfterAll { by: Role::Client, code: 7 },
-            rebinds: vec![],
-            keep_alive: false,
-        }],
-        faults: vec![Fault {
-            when: When::Window { dir: None, from_us: 0, to_us: u64::MAX, permille: 30, key: seed },
-            action: Action::Drop,
-        }],
-        delay_key: seed ^ 1,
-        yield_key: seed ^ 2,
-        data_key: seed ^ 3,
-        rand_key: seed ^ 4,
-        time_cap_us: 120_000_000,
-        faults_end_us: None,
-        attacker: vec![],
-    }
-}
-
 fn main() {
     run::install_panic_hook();
-    let seed: u64 = std::env::args().nth(1).and_then(|s| s.parse().ok()).unwrap_or(1);
-    let plan = basic_plan(seed);
-    let t = std::time::Instant::now();
-    let out = run::execute(&plan, false);
-    println!("wall {:?} end_ns {} panic {:?}", t.elapsed(), out.end_ns, out.panic.as_ref().map(|s| &s[..s.len().min(2000)]));
-    println!("sends {:#?}", out.app.sends);
-    println!("recvs {:#?}", out.app.recvs);
-    println!("conns {:#?}", out.app.conns);
-    println!("capped {:?} pending {:?}", out.app.capped_tasks, out.app.pending_ops);
-    println!("tx {} rx {} evs {} net {} fired {:?}", out.obs.tx.len(), out.obs.rx.len(), out.obs.evs.len(), out.net.log.len(), out.net.fired);
+    let args: Vec<String> = std::env::args().collect();
+    let code = harness::main(&args[1..]);
+    std::process::exit(code);
 }
